@@ -36,8 +36,8 @@ def run(check, tier):
             fixed = dict(ndim=ndim, k0=k0, stem=False)
             if ndim >= 4:
                 fixed["k2"] = rnd.randrange(12)
-            if ndim >= 4 and quick:
-                fixed["k3"] = rnd.randrange(12)
+            if ndim >= 4:
+                fixed["k3"] = rnd.randrange(12)           # (free k1 and k3 together: ~2500 paths, does not fit the time-out)
             if ndim == 5:
                 fixed["k4"] = rnd.randrange(12)
             jobs.append(dict(fn="indexing", fixed=fixed, timeout=t, key=f"indexing:ndim={ndim}"))
@@ -57,11 +57,12 @@ def run(check, tier):
                                                       i2=True, o3=none), timeout=t, key=f"alias:ndim={nd}"))
     combos = [(nd, st, o1) for nd, st in ((2, False), (3, False), (4, True)) for o1 in range(N_OPS)]
     for nd, st, o1 in (rnd.sample(combos, 6) if quick else combos):
-        fixed = dict(ndim=nd, stem=st, o1=o1, a2=rnd.randrange(3), b2=rnd.randrange(4), i2=bool(rnd.randrange(2)))
+        fixed = dict(ndim=nd, stem=st, o1=o1, a2=rnd.randrange(3), b2=rnd.randrange(4), i2=bool(rnd.randrange(2)),
+                     i1=bool(rnd.randrange(2)))
         if quick:
             fixed["o3"] = none
-            fixed["i1"] = bool(rnd.randrange(2))
         else:
-            fixed.update(a3=rnd.randrange(3), b3=rnd.randrange(4), i3=bool(rnd.randrange(2)))
+            # three operations: the second operation kind is pinned per job as well (o1 x o2 x o3 free is ~4000 paths per job)
+            fixed.update(o2=rnd.randrange(N_OPS), a3=rnd.randrange(3), b3=rnd.randrange(4), i3=bool(rnd.randrange(2)))
         jobs.append(dict(fn="history", fixed=fixed, timeout=t, key=f"history:ndim={nd}"))
     run_jobs(check, FILE, jobs)
